@@ -2,7 +2,7 @@
 // driver mode `lib2`).  Everything is read through the C API on the library's own connection (no library
 // code on the SQL path; blobs of lib2.rows are decoded by the library's decoders, as in t2.row).
 //   lib2.raw     every table the composite model holds, key columns:
-//                info(uuid,major,minor,patch) seq(Track,Playlist,PlaylistEntity,ChangeLog) Track(...)… Playlist(...)…
+//                info(uuid,major,minor,patch) seq(Track,Playlist,PlaylistEntity,ChangeLog,PreparelistEntity) Track(...)… Playlist(...)…
 //                PlaylistEntity(...)… ChangeLog(...)…|absent AlbumArt(...)… PreparelistEntity(...)…
 //                (Information.uuid is printed as the token UUID when it is a non-empty text; a column equal to it
 //                 likewise; PlaylistEntity.databaseUuid as tag 0 when equal to it)
@@ -88,7 +88,7 @@ DJV_CMD(lib2_raw, "lib2.raw")
     }
     bool has_log = table_exists(h, "ChangeLog");
     o += " seq(" + seq_of(h, "Track") + "," + seq_of(h, "Playlist") + "," + seq_of(h, "PlaylistEntity") + "," +
-         (has_log ? seq_of(h, "ChangeLog") : std::string("absent")) + ")";
+         (has_log ? seq_of(h, "ChangeLog") : std::string("absent")) + "," + seq_of(h, "PreparelistEntity") + ")";
     {
         std::string t = raw_query(h,
                                   "SELECT id, path, filename, fileType, "
@@ -112,6 +112,23 @@ DJV_CMD(lib2_raw, "lib2.raw")
     o += " AlbumArt" + raw_query(h, "SELECT id FROM AlbumArt ORDER BY id");
     o += " PreparelistEntity" + raw_query(h, "SELECT id, trackId FROM PreparelistEntity ORDER BY id");
     return o;
+}
+
+// lib2.plantprep <trackvar>: what Engine does when a track is put on the prepare list — a PreparelistEntity row
+// for the track (the library itself never inserts into this table).  Only for tracks that exist.
+DJV_CMD(lib2_plantprep, "lib2.plantprep")
+{
+    auto& t = TR(a.at(1));
+    if (!t.is_valid()) return "skipped";
+    std::string sql = "INSERT INTO PreparelistEntity (trackId, trackNumber) VALUES (" + std::to_string((long long)t.id()) + ", 1)";
+    char* err = nullptr;
+    if (sqlite3_exec(main_handle(), sql.c_str(), nullptr, nullptr, &err) != SQLITE_OK)
+    {
+        std::string m = err ? err : "";
+        sqlite3_free(err);
+        throw bad_command{"plantprep: " + m};
+    }
+    return "";
 }
 
 DJV_CMD(lib2_rows, "lib2.rows")
